@@ -16,7 +16,7 @@ from .control import ControlWorld, gen_command, public_members
 def gen_scenario(rng):
     return {"cls": rng.choice(["T", "T", "S", "XT", "XS"]), "size": rng.choice([None, None, 1, 2, 3]), "seed": rng.getrandbits(48),
             "n": rng.randint(5, 30) if rng.random() > 0.08 else rng.randint(80, 150), "sfunc": rng.choice(["work", "work", "block", "fail"]), "width": rng.choice([80, 80, 60, 200]),
-            "noise": rng.random() < 0.5}
+            "noise": rng.random() < 0.5, "decoy": rng.random() < 0.3}
 
 
 class World(ControlWorld):
@@ -27,9 +27,13 @@ class World(ControlWorld):
         self.triggers = set()
 
     def violate(self, clause, msg):
-        if self.sc.get("as_c15"):
+        prop = self.sc.get("as_prop")
+        if prop == "C15":
             # the C15 'session' family: the size is read and assigned through control commands
             clause = "C15.reports" if "pool-size" in msg or "pool_size" in msg else "C15.no_admission_above"
+        elif prop == "C06":
+            # the C06 'session' family: cancel(ids) issued as a command must reach exactly the named tasks of *this* pool
+            clause = "C06.via_command"
         super().violate(clause, msg)
 
     def make_pool(self):
@@ -91,6 +95,12 @@ class World(ControlWorld):
         if s.handshake_exc is not None:
             return
         closed = False
+        decoy = None
+        if self.sc.get("decoy"):
+            # a second served pool of the same class in the same process: it is sent the same lines first
+            decoy = await self.open(self.make_pool(), self.sc["width"], handshake_clause="C17.reply", side="decoy")
+            if decoy.handshake_exc is not None:
+                decoy = None
         noise = None
         if self.sc.get("noise"):
             # a second client of the same width on the same pool that only ever sends help requests and ill-formed lines
@@ -124,6 +134,10 @@ class World(ControlWorld):
                 depth = rng.randrange(5)
                 set_import_state(depth)
                 self.sit[f"C17.lazy_path.preimported_{depth}"] += 1
+            if decoy is not None and cmd.name not in ("gather_and_close", "until_closed") and rng.random() < 0.6:
+                await self.send(decoy, cmd.line)
+                self.sit["C17.decoy_lines"] += 1
+                s.new_writes()
             got = await self.send(s, cmd.line)
             outcome = await self.direct(twin, cmd)
             await self.idle()
